@@ -1487,3 +1487,69 @@ Proof.
   - destruct (reduce_spec val M ML FJoint _ _ W R) as [_ [WO _]]. exact WO.
 Qed.
 End Reassembly.
+
+(* ---------------- the general entry point with keywords only = the keyword layer ---------------- *)
+Section DirectCalls.
+Variable val : Type.
+Variable M : Mon.
+Notation asg := (list (var * val)).
+
+Lemma restrict_all (kw : asg) ps : incl (dom kw) ps -> restrict kw ps = kw.
+Proof.
+  intros H. unfold restrict. apply filter_all. intros [k x] I. apply mem_In, H.
+  unfold dom. apply in_map_iff. exists (k, x). now split.
+Qed.
+
+Lemma attrs_ok_params (d : dist val M) (kw : asg) :
+  ~ In (dname d) (dattrs d) -> incl (dom kw) (dparams d) -> attrs_ok d kw = true.
+Proof.
+  intros N H. unfold attrs_ok. apply forallb_forall. intros k Hk. apply H in Hk.
+  unfold dparams in Hk. apply in_app_or in Hk as [I|[<-|[]]].
+  - apply orb_true_iff. right. now apply mem_In.
+  - apply orb_true_iff. left. apply negb_true_iff. now apply mem_false.
+Qed.
+
+Lemma dparse_nil (c : list var) (kw : asg) : dparse c [] kw = Some (kw, None).
+Proof. destruct c; reflexivity. Qed.
+Lemma jparse_nil (c : list var) (kw : asg) : jparse c [] kw = Some kw.
+Proof. destruct c; reflexivity. Qed.
+
+(* a direct call  density(keywords)  over current parameters does what the joint does to that factor *)
+Lemma dens_cond_kw (f : dens val M) (kw : asg) :
+  (match f with D d => ~ In (dname d) (dattrs d) | _ => True end) ->
+  incl (dom kw) (dens_params f) ->
+  dens_cond f [] kw = cond_dens f (restrict kw (dens_params f)).
+Proof.
+  intros N H. rewrite (restrict_all kw _ H). destruct f as [d|d x|n ev]; cbn [dens_cond cond_dens dparse dens_params] in *.
+  - rewrite dparse_nil, (attrs_ok_params d kw N H). cbn [negb].
+    destruct (lookup (dname d) kw) as [x|] eqn:EL; [reflexivity|].
+    assert (forallb (fun k => mem k (dfree d)) (dom kw) = true) as ->; [|reflexivity].
+    apply forallb_forall. intros k Hk. apply mem_In. pose proof (H k Hk) as I.
+    unfold dparams in I. apply in_app_or in I as [I|[<-|[]]]; [assumption|].
+    exfalso. apply (proj1 (lookup_None val (dname d) kw) EL Hk).
+  - rewrite dparse_nil.
+    assert (forallb (fun k => mem k (dfree d)) (dom kw) = true) as ->; [|reflexivity].
+    apply forallb_forall. intros k Hk. now apply mem_In, H.
+  - reflexivity.
+Qed.
+
+Lemma post_logd_strict_irrelevant s1 s2 (ld : dist val M) data pr c x :
+  dfree pr = [] -> post_logd s1 ld data pr c [x] [] = post_logd s2 ld data pr c [x] [].
+Proof.
+  intros F. unfold post_logd. cbv beta zeta iota. unfold dist_logd, is_cond. rewrite F. reflexivity.
+Qed.
+
+Lemma obj_cond_keywords pnamed strict (o : obj val M) (kw : asg) :
+  wf_obj val M o ->
+  (match o with OD (D d) => ~ In (dname d) (dattrs d) | _ => True end) ->
+  incl (dom kw) (obj_params o) ->
+  obj_cond pnamed strict o [] kw = obj_cond_kw pnamed o kw.
+Proof.
+  intros W N H. destruct o as [fl J|ld x pr c|f]; cbn [obj_cond obj_cond_kw obj_params] in *.
+  - unfold jcond. now rewrite jparse_nil.
+  - destruct W as [Fpr _]. unfold post_cond.
+    destruct kw as [|[k y] [|q kw]]; try reflexivity.
+    now rewrite (post_logd_strict_irrelevant strict false ld x pr c y Fpr).
+  - rewrite (dens_cond_kw f kw); [reflexivity | destruct f; exact N || exact I | exact H].
+Qed.
+End DirectCalls.
